@@ -16,6 +16,7 @@ from common import *  # noqa
 PID = 'C19'
 NEAR = 1e-6
 TAILS = ('both', 'left', 'right')
+DTYPES = ('float64', 'float32', 'int64', 'int32', 'uint16', 'uint32', 'uint8', 'float64', 'uint16', 'int16')
 SWAP = {'both': 'both', 'left': 'right', 'right': 'left'}
 
 
@@ -81,12 +82,25 @@ def gen_cases(rs, tier):
         ny = nx if paired else int(rs.choice([v for v in range(3, 8) if v != nx]))
         flavour = ('plain', 'const', 'const', 'const-sep')[t % 4] if t % 8 != 7 or paired else 'const-sep'
         x, y, eff = gen_data(rs, n, nx, ny, paired, flavour)
+        dtype = DTYPES[t % len(DTYPES)]
+        if dtype.startswith('uint'):      # a common shift leaves every t statistic unchanged and keeps the data non-negative
+            sh = 16 - min(0, int(min(x.min(), y.min())))
+            x = x + sh; y = y + sh
         r = rs.rand()
         thr = float(np.round(rs.uniform(1.0, 2.8), 4)) if r < 0.75 else (float(np.round(rs.uniform(0.05, 1.0), 4)) if r < 0.9 else
               (float(np.round(rs.uniform(6, 30), 3)) if r < 0.96 else float(np.round(rs.uniform(-1.5, -0.1), 4))))
         cases.append({'n': n, 'nx': nx, 'ny': ny, 'x': x.astype(int).tolist(), 'y': y.astype(int).tolist(), 'thr': thr,
                       'tail': TAILS[int(rs.randint(3))], 'paired': paired, 'k': int(rs.randint(20, 51)),
-                      'seed': int(rs.randint(2 ** 31 - 1)), 'flavour': flavour, 'exp': 0, 'cexp': None, 'scale': 'unit'})
+                      'seed': int(rs.randint(2 ** 31 - 1)), 'flavour': flavour, 'exp': 0, 'cexp': None, 'scale': 'unit',
+                      'dtype': dtype, 'order': 'F' if t % 3 == 1 else 'C'})
+    # ---- two-sample tests with EQUAL small groups (3+3, 4+4, 5+5), many permutations: a relabelling and its mirror image both occur
+    for t in range(48 if quick else 600):
+        n = int(rs.randint(4, 6)); nx = ny = (3, 4, 5)[t % 3]
+        x, y, eff = gen_data(rs, n, nx, ny, False, ('plain', 'const')[t % 2])
+        cases.append({'n': n, 'nx': nx, 'ny': ny, 'x': x.astype(int).tolist(), 'y': y.astype(int).tolist(),
+                      'thr': float(np.round(rs.uniform(0.6, 2.2), 4)), 'tail': TAILS[(t // 3) % 3], 'paired': False, 'k': int(rs.randint(40, 81)),
+                      'seed': int(rs.randint(2 ** 31 - 1)), 'flavour': 'equal-groups', 'exp': 0, 'cexp': None, 'scale': 'unit',
+                      'dtype': 'float64', 'order': 'C'})
     # ---- the same kind of data in exact dyadic units: t is scale invariant, every predicate must be unchanged
     M = 90 if quick else 1500
     for t in range(M):
@@ -202,6 +216,10 @@ def run_case(c):
     E = np.full((n, n), int(c.get('exp') or 0)) + (np.array(c['cexp']) if c.get('cexp') is not None else 0)
     S = np.ldexp(1.0, E)[:, :, None]            # exact powers of two: the scaled data are exact floats
     x = np.array(c['x'], dtype=float) * S; y = np.array(c['y'], dtype=float) * S
+    dt = c.get('dtype', 'float64')
+    if dt != 'float64' or c.get('order', 'C') != 'C':      # integer-valued data: every cast below is exact
+        x = np.array(x.astype(dt), order=c.get('order', 'C')); y = np.array(y.astype(dt), order=c.get('order', 'C'))
+        assert np.array_equal(x.astype(float), np.array(c['x'], dtype=float)) and np.array_equal(y.astype(float), np.array(c['y'], dtype=float))
     thr, tail, paired, k = c['thr'], c['tail'], c['paired'], c['k']
     out = {'fails': [], 'status': None, 'line': None, 'expected': None, 'skipped': False, 'ncomp': 0, 'undefined': 0, 'sym': 0}
     F = out['fails']
@@ -360,7 +378,7 @@ def main():
     ck = Check(PID)
     ck.cov['rule'] = ('cases = (x stack, y stack, threshold, tail, paired, k, seed): N = 4..6 nodes, integer-valued symmetric matrices, group sizes 3..7 '
                       '(unequal unless paired), effect clusters of either sign, constant (zero-variance) edges, k = 20..50, thresholds mostly 1..2.8 plus '
-                      'small / huge / negative ones; a family with the same data in exact dyadic units (all data x 2^-30, 2^-40, 2^20; single effect edges at 2^-35 next to unit-scale edges); non-trivial = distinct case in which nbs_bct returned and the oracle finds at least one component; '
+                      'small / huge / negative ones; stacks passed as float64 / float32 / int64 / int32 / int16 / uint8 / uint16 / uint32 in C or Fortran order; two-sample cases with equal small groups (3+3, 4+4, 5+5, k = 40..80); a family with the same data in exact dyadic units (all data x 2^-30, 2^-40, 2^20; single effect edges at 2^-35 next to unit-scale edges); non-trivial = distinct case in which nbs_bct returned and the oracle finds at least one component; '
                       'cases with an attained statistic within 1e-6 of the threshold are skipped and counted')
     ck.assumptions += ['data are integer valued so that exact and float statistics differ by far less than the 1e-6 threshold margin',
                        'group sizes >= 3 (property quantifier); the t statistic of an edge that is constant over all subjects (0/0) is treated as not exceeding any threshold >= 0',
@@ -376,7 +394,7 @@ def main():
     lines, meta = [], []
     for c, r in zip(cases, results):
         ck.count('status:' + str(r['status'])); ck.count('n=%d' % c['n']); ck.count('tail:' + c['tail']); ck.count('paired' if c['paired'] else 'two-sample')
-        ck.count('flavour:' + c['flavour']); ck.count('scale:' + c.get('scale', 'unit')); ck.count('symmetry_calls', r['sym']); ck.count('undefined_t_cells(0/0)', r['undefined'])
+        ck.count('flavour:' + c['flavour']); ck.count('dtype:%s/%s' % (c.get('dtype', 'float64'), c.get('order', 'C'))); ck.count('scale:' + c.get('scale', 'unit')); ck.count('symmetry_calls', r['sym']); ck.count('undefined_t_cells(0/0)', r['undefined'])
         if r['skipped']:
             ck.count('skipped_near_threshold')
         nontriv = r['status'] == 'ok' and r['ncomp'] > 0
